@@ -17,6 +17,8 @@ def obligations(tier):
                           {"VF_KIND": kind, "VF_SYM": sym, "VF_MAXD": maxd},
                           funcs=(IN + {0: "NoteEvent", 1: "SpecialEvent", 2: "TrackEvent"}[kind] + ".ParsedData.from_chart_line",),
                           bounds=f"symbolic ASCII digit string of <={maxd} digits through the real int(); failed match raises RegexNotMatchError only"))
+    obs.append(Ob("C07.dispatch_history", "CH", "harness.h_track", "dispatcher_history", 600, funcs=("chartparse.track.parse_data_from_chart_lines",),
+                  bounds="a line is decoded by the kinds of THIS section whatever an earlier section decided about the same text"))
     obs.append(Ob("C07.dispatch_wiring", "CH", "harness.h_track", "track_dispatch_wiring", 300, {"VF_TRACK": 0},
                   funcs=(IN + "InstrumentTrack._parse_data_from_chart_lines",)))
     return obs
